@@ -13,7 +13,11 @@ RULE = ('histories of register / unregister / set_target_info over collectors dr
         '(x, x_total, x_sum, x_bucket, x_created, x_info, x_count, x_gsum, x_gcount, target, target_info x 8 family types, '
         'with units): custom collectors with describe(), without describe(), describing other families than they '
         'collect, describing one name twice; built-in Counter/Gauge/Summary/Histogram/Info/Enum registering themselves '
-        'in their constructor; auto_describe on and off; target info at construction and by set_target_info; '
+        'in their constructor; custom collector classes that are duck-typed and classes DERIVING from '
+        'prometheus_client.registry.Collector (with and without a describe() of their own; without one they claim, under '
+        'auto_describe, what collect() yields), the library\'s own GCCollector / PlatformCollector / ProcessCollector '
+        'constructed on the registry under test, and nested CollectorRegistry objects (with families and target info) '
+        'registered as collectors; auto_describe on and off; target info at construction and by set_target_info; '
         'custom collectors handing describe() / collect() back in every iterable shape (list, tuple, deque, generator '
         'function, generator expression, lazily building generator, iter(list), map, itertools.chain, iterator object, '
         're-iterable non-sequence, __getitem__-only sequence; empty ones included), for describe() and, under '
@@ -21,15 +25,20 @@ RULE = ('histories of register / unregister / set_target_info over collectors dr
         'collectors that CHANGE what they describe / collect in the middle of a history (op mut), created series '
         'switched off and on in the middle of a history (op created: disable_created_metrics / enable_created_metrics) '
         'and switched off from the start through PROMETHEUS_DISABLE_CREATED_SERIES in a child interpreter. '
-        'Exhaustive: every history of length <= 3 over 14 ops (6 collectors) for 5 fixed collector sets and one set mixing '
-        'the iterable shapes, length <= 2 for the described / undescribed sets under each of the 11 non-list shapes, '
+        'Exhaustive: every history of length <= 3 over 14 ops (6 collectors) for 7 fixed collector sets (two of them: '
+        'Collector subclasses, nested registries) and one set mixing '
+        'the iterable shapes, length <= 2 for the library-collector set and for the described / undescribed sets under each '
+        'of the 11 non-list shapes, duck-typed and (all 12 shapes) derived from registry.Collector, '
         'length 4 over 4 collectors; then seeded random histories up to length 40.  Non-trivial = at least one rejected call and one '
         'successful unregister, or a rejected call followed by a success of the same collector; distinct by case')
 TRUSTED = ['CPython dict insertion order and set semantics (modelled as association lists)',
            'collector objects are abstracted to (describe() result, collect() result) = the sequence of families ONE pass '
            'over the returned iterable yields (whatever its shape: list, generator, one-shot iterator ...), re-read after '
            'every step that can change them; the names a collector claims are those of the family types it described when it was registered, '
-           '_created included whether or not created series are exported']
+           '_created included whether or not created series are exported; whether a collector HAS a describe() is how '
+           'its class was written (own method), not hasattr',
+           'values exposed by GCCollector / ProcessCollector (python_gc_*, process_*) move between collections and are '
+           'masked; names, types, label sets are compared']
 ASSUMPTIONS = ['claimed names follow the OpenMetrics suffix table of the property statement (counter: _total,_created; '
                'summary: _sum,_count,_created; histogram: _bucket,_sum,_count,_created; gaugehistogram: _bucket,_gsum,_gcount; '
                'info: _info); a collector without describe() claims names only under auto_describe']
@@ -106,9 +115,15 @@ def payload(s):
 ONE = '1.0|None|None'     # payload of the target_info sample (token 1 of the model)
 
 
+# families of the library's own runtime collectors (GCCollector, ProcessCollector): their VALUES are counters of the
+# interpreter / the process and move between two collections; names, types, label sets do not
+VOLATILE = ('python_gc_', 'process_')
+
+
 def canon_family(m):
+    vol = m.name.startswith(VOLATILE)
     return [m.name, m.type, m.documentation, m.unit,
-            [[s.name, [list(kv) for kv in sorted(s.labels.items())], payload(s)] for s in m.samples]]
+            [[s.name, [list(kv) for kv in sorted(s.labels.items())], 'volatile' if vol else payload(s)] for s in m.samples]]
 
 
 # Every iterable shape a collector may legitimately hand back from describe() / collect() (both are only required to be
@@ -212,9 +227,11 @@ class Described(Custom):
 _CLASSES = {}
 
 
-def collector_class(has_describe, dshape, cshape):
-    """The class of a custom collector whose describe() / collect() return the given shapes."""
-    key = (has_describe, dshape if has_describe else 'list', cshape)
+def collector_class(has_describe, dshape, cshape, base=None):
+    """The class of a custom collector whose describe() / collect() return the given shapes.  base=None: a duck-typed
+    class; base='Collector': a class deriving from prometheus_client.registry.Collector (the abstract base class the
+    documentation recommends), with its own describe() only when has_describe."""
+    key = (has_describe, dshape if has_describe else 'list', cshape, base)
     if key in _CLASSES:
         return _CLASSES[key]
     ns = {}
@@ -251,7 +268,17 @@ def collector_class(has_describe, dshape, cshape):
             return shaped(dshape, self.desc)
     if has_describe and key[1] != 'list':
         ns['describe'] = describe
-    cls = type('Custom_%s_%s' % (key[1] if has_describe else 'nodesc', cshape), (Described if has_describe else Custom,), ns)
+    bases = (Described if has_describe else Custom,)
+    if base == 'Collector':
+        import types
+        from prometheus_client.registry import Collector
+        bases += (Collector,)
+        if 'collect' not in ns:
+            ns['collect'] = collect        # the subclass itself implements the abstract method
+        cls = types.new_class('Derived_%s_%s' % (key[1] if has_describe else 'nodesc', cshape), bases,
+                              exec_body=lambda d: d.update(ns))
+    else:
+        cls = type('Custom_%s_%s' % (key[1] if has_describe else 'nodesc', cshape), bases, ns)
     _CLASSES[key] = cls
     return cls
 
@@ -264,6 +291,35 @@ def shape_of(spec):
 def builtin_class(name):
     import prometheus_client
     return getattr(prometheus_client, name)
+
+
+LIB_CLASSES = ['GCCollector', 'PlatformCollector', 'ProcessCollector']
+
+
+def lib_class(name):
+    """The library's own collector classes (they derive from registry.Collector and have no describe())."""
+    import prometheus_client
+    return getattr(prometheus_client, name if name in LIB_CLASSES else 'PlatformCollector')
+
+
+class Plain:
+    """A collector inside a nested registry (never registered with the registry under test)."""
+
+    def __init__(self, fams):
+        self.fams = fams
+
+    def collect(self):
+        return list(self.fams)
+
+
+def own_describe(spec):
+    """Whether the collector's class brings its OWN describe(): a custom collector generated with one and the built-in
+    metric classes.  Decided by how the collector was written, not by hasattr: a collector that merely inherits from
+    registry.Collector, the library's runtime collectors and a nested registry have none, and what such a collector
+    claims under auto_describe is what its collect() yields."""
+    if spec['k'] == 'custom':
+        return spec['desc'] is not None
+    return spec['k'] == 'builtin'
 
 
 class World:
@@ -293,10 +349,10 @@ class World:
                         for s in m.samples:
                             u.add(s.name)
                 dshape, cshape = shape_of(spec)
-                o = collector_class(spec['desc'] is not None, dshape, cshape)(cid, behaviours, self.log)
+                o = collector_class(spec['desc'] is not None, dshape, cshape, spec.get('base'))(cid, behaviours, self.log)
             else:
                 o = self.construct(cid, spec, None)
-                for m in list(o.describe()) + list(o.collect()):
+                for m in (list(o.describe()) if spec['k'] == 'builtin' else []) + list(o.collect()):
                     u.add(m.name)
                     for s in SPEC_SUFFIXES.get(m.type, []):
                         u.add(m.name + s)
@@ -316,7 +372,7 @@ class World:
         for cid, o in enumerate(self.objs):
             o = self.live.get(cid, o)
             desc = None
-            if hasattr(o, 'describe'):
+            if own_describe(self.case['colls'][cid]):
                 desc = [[m.name, m.type] for m in o.describe()]
             env.append((desc, [canon_family(m) for m in o.collect()]))
         del self.log[:]
@@ -325,15 +381,27 @@ class World:
         return len(self.envs) - 1
 
     def construct(self, cid, spec, registry):
-        cls = builtin_class(spec['cls'])
-        kw = dict(registry=registry)
-        if spec.get('unit'):
-            kw['unit'] = spec['unit']
-        if spec['cls'] == 'Enum':
-            kw['states'] = ['on', 'off']
-        o = cls(spec['name'], 'help ' + spec['name'], spec.get('labels', []), **kw)
-        for lv in spec.get('children', []):
-            o.labels(*lv)
+        """The collector objects that are not instances of the harness's own classes: a built-in metric, one of the
+        library's runtime collectors (both register themselves with `registry` in their constructor), or a nested
+        CollectorRegistry (registered like any collector).  collect() is wrapped on the instance to log the call."""
+        if spec['k'] == 'lib':
+            from prometheus_client import CollectorRegistry
+            o = lib_class(spec['cls'])(registry=registry if registry is not None else CollectorRegistry())
+        elif spec['k'] == 'nested':
+            from prometheus_client import CollectorRegistry
+            o = CollectorRegistry(auto_describe=False, target_info=dict(spec['ti']) if spec.get('ti') else None)
+            for f in spec['fams']:
+                o.register(Plain([build_family(f)]))
+        else:
+            cls = builtin_class(spec['cls'])
+            kw = dict(registry=registry)
+            if spec.get('unit'):
+                kw['unit'] = spec['unit']
+            if spec['cls'] == 'Enum':
+                kw['states'] = ['on', 'off']
+            o = cls(spec['name'], 'help ' + spec['name'], spec.get('labels', []), **kw)
+            for lv in spec.get('children', []):
+                o.labels(*lv)
         inner = o.collect
         log = self.log
 
@@ -366,7 +434,7 @@ class World:
             if op[0] == 'reg':
                 cid = op[1]
                 spec = self.case['colls'][cid]
-                if spec['k'] == 'builtin' and cid not in self.live:
+                if spec['k'] in ('builtin', 'lib') and cid not in self.live:
                     self.live[cid] = self.construct(cid, spec, r)      # registers itself, or raises
                 else:
                     r.register(self.live.get(cid, self.objs[cid]))
@@ -464,6 +532,15 @@ def new_registry(case):
 TARGET_FAMILY = lambda ti: ['target', 'info', 'Target metadata', '', [[TI, ti, ONE]]]
 
 
+def minus_target(fams, ti):
+    """fams without the registry's own target family (ONE occurrence: a collector that claims nothing - no describe(),
+    auto_describe off - may expose an equal family, e.g. a nested registry with the same target info)."""
+    fams = list(fams)
+    if ti and TARGET_FAMILY(ti) in fams:
+        fams.remove(TARGET_FAMILY(ti))
+    return fams
+
+
 def step_oracle(w, auto, held, op, outcome, before, after):
     """The property on one step, from public observations only.  Returns a list of violation strings.
     held (a Held) = the names each registered collector was registered under; w.claims(c, auto) = what c describes now."""
@@ -557,13 +634,12 @@ def step_oracle(w, auto, held, op, outcome, before, after):
             if not clash:
                 if failed:
                     v.append('set_target_info raised %s without a clash' % outcome)
-                elif ti1 != lab or seq1 != seq0 or fams1 != msort([f for f in fams0 if not (ti0 and f == TARGET_FAMILY(ti0))]
-                                                                  + [TARGET_FAMILY(lab)]):
+                elif ti1 != lab or seq1 != seq0 or fams1 != msort(minus_target(fams0, ti0) + [TARGET_FAMILY(lab)]):
                     v.append('after set_target_info(%s): target info %s, families %s' % (lab, ti1, fams1[:3]))
         else:
             if failed:
                 v.append('set_target_info(%r) raised %s' % (op[1], outcome))
-            elif ti1 or seq1 != seq0 or fams1 != [f for f in fams0 if not (ti0 and f == TARGET_FAMILY(ti0))]:
+            elif ti1 or seq1 != seq0 or fams1 != minus_target(fams0, ti0):
                 v.append('after clearing target info: target info %s, families changed beyond the target family' % ti1)
     return v
 
@@ -806,7 +882,11 @@ def classify(case, obs):
     for op, st in zip(case['ops'], obs['steps']):
         keys.append('%s:%s' % (op[0], st[0]))
     for c in case['colls']:
-        keys.append('coll:' + (c['cls'] if c['k'] == 'builtin' else 'custom-nodesc' if c['desc'] is None else 'custom-desc'))
+        if c['k'] in ('lib', 'nested'):
+            keys.append('coll:' + (c['cls'] if c['k'] == 'lib' else 'nested-registry'))
+        else:
+            keys.append('coll:' + (c['cls'] if c['k'] == 'builtin' else 'custom-nodesc' if c['desc'] is None else 'custom-desc')
+                        + ('-derived-from-Collector' if c.get('base') else ''))
         if c['k'] == 'custom':
             d, k = shape_of(c)
             if c['desc'] is not None:
@@ -843,6 +923,7 @@ def neighbours(case):
     for c, spec in enumerate(case['colls']):
         if spec.get('alts'):
             out.append(dict(case, ops=ops + [['mut', c, 1], ['unreg', c]]))
+    out.append(dict(case, colls=[derived(c) if c['k'] == 'custom' else c for c in case['colls']]))
     return out
 
 
@@ -870,6 +951,16 @@ def shrinks(case):
                     cs[i] = shape(c, *sh)
                     yield dict(case, colls=cs)
     for i, c in enumerate(case['colls']):
+        if c.get('base'):       # towards a duck-typed class
+            cs = list(case['colls'])
+            cs[i] = {k: v for k, v in c.items() if k != 'base'}
+            yield dict(case, colls=cs)
+    for i, c in enumerate(case['colls']):
+        if c['k'] == 'nested' and (len(c['fams']) > 1 or (c['fams'] and c.get('ti'))):
+            for j in range(len(c['fams'])):
+                cs = list(case['colls'])
+                cs[i] = dict(c, fams=c['fams'][:j] + c['fams'][j + 1:])
+                yield dict(case, colls=cs)
         if c['k'] == 'custom' and len(c['fams']) > 1:
             for j in range(len(c['fams'])):
                 cs = list(case['colls'])
@@ -920,6 +1011,23 @@ def shape(coll, dshape, cshape):
     return c
 
 
+def derived(coll):
+    """The custom collector coll as a class deriving from prometheus_client.registry.Collector (own describe() or not
+    as before)."""
+    return dict(coll, base='Collector')
+
+
+def lib(cls):
+    """One of the library's own collectors (GCCollector / PlatformCollector / ProcessCollector), constructed on the
+    registry under test."""
+    return {'k': 'lib', 'cls': cls}
+
+
+def nested(*fams, **kw):
+    """A CollectorRegistry holding one plain collector per family (and target info ti), registered as a collector."""
+    return {'k': 'nested', 'fams': list(fams), 'ti': kw.get('ti')}
+
+
 def builtin(cls, name, unit='', labels=(), children=()):
     return {'k': 'builtin', 'cls': cls, 'name': name, 'unit': unit, 'labels': list(labels),
             'children': [list(c) for c in children]}
@@ -947,8 +1055,23 @@ FIXED_SETS = [
     ('units', [builtin('Counter', 'x', unit='total'), builtin('Summary', 'x'), builtin('Enum', 'x_count'),
                builtin('Gauge', 'x', labels=['l'], children=[['a'], ['b']]), described(fam('x', 'gauge', unit='sum')),
                builtin('Gauge', TI)], [True]),
+    # collector classes DERIVING from registry.Collector: without describe() of their own they claim, under auto_describe,
+    # what collect() yields - exactly like a duck-typed collector (the fourth one)
+    ('derived', [derived(undescribed(fam('x', 'counter'))), derived(undescribed(fam('x_total', 'gauge'))),
+                 derived(described(fam('x_created', 'gauge'))), undescribed(fam('x', 'summary')),
+                 derived(undescribed(fam('x_sum', 'gauge'), fam('target', 'info', [[TI, {'a': 'b'}, 1.0, None, None]]))),
+                 builtin('Gauge', 'x_total')], [True, False]),
+    # registries registered as collectors of another registry (CollectorRegistry has collect() and no describe())
+    ('nested', [nested(fam('x', 'counter')), nested(fam('x_total', 'gauge'), fam('x_sum', 'gauge')), nested(ti={'a': 'b'}),
+                undescribed(fam('x', 'histogram')), builtin('Gauge', 'x_created'), derived(described(fam('x_sum', 'gauge')))],
+     [True, False]),
 ]
 TI_ON = {'a': 'b'}
+
+# the library's own collectors on a private registry (their values move: payloads masked, see VOLATILE); not shared with
+# C07, whose HTTP comparison needs two collections to agree on values
+LIB_SET = ('lib', [lib('GCCollector'), lib('GCCollector'), lib('PlatformCollector'), lib('ProcessCollector'),
+                   builtin('Gauge', 'python_gc_collections_total'), described(fam('python_info', 'gauge'))], [True])
 
 # the iterable shapes mixed in one registry (auto_describe on: undescribed collectors are described by collect());
 # the last one describes nothing through a generator that yields nothing
@@ -966,6 +1089,10 @@ def shape_sets():
     for sh in SHAPES[1:]:
         yield sh, [shape(c, sh, sh) for c in FIXED_SETS[0][1]], False
         yield sh, [shape(c, sh, sh) for c in FIXED_SETS[2][1]], True
+    # the same through classes deriving from registry.Collector (plain lists included)
+    for sh in SHAPES:
+        yield sh, [derived(shape(c, sh, sh)) for c in FIXED_SETS[2][1]], True
+        yield sh, [derived(shape(c, sh, sh)) for c in FIXED_SETS[0][1]], False
 
 # collector sets with their own extra ops: (name, collectors, auto_describe, extra ops)
 DYNAMIC_SETS = [
@@ -1021,13 +1148,28 @@ def gen_family(rng, well=None):
     return f
 
 
-def gen_collector(rng):
+def gen_collector(rng, libs=False):
+    """libs: also draw the library's runtime collectors (volatile values: C06 only)."""
     k = rng.random()
     if k < 0.3:
         cls = rng.choice(['Counter', 'Gauge', 'Summary', 'Histogram', 'Info', 'Enum', 'Gauge', 'Counter'])
         unit = rng.choice(['', '', '', 'total', 'sum', 'seconds']) if cls not in ('Info', 'Enum') else ''
         lab = rng.random() < 0.25
         return builtin(cls, rng.choice(NAMES), unit, ['l'] if lab else [], [['a'], ['b']][:rng.randrange(3)] if lab else [])
+    if k < 0.38:      # a nested registry
+        return nested(*[gen_family(rng) for _ in range(rng.choice([0, 1, 1, 2]))],
+                      ti=rng.choice([None, None, None, {'a': 'b'}, {'n': 'ested'}]))
+    if k < 0.43 and libs:
+        return rng.choice([lib(c) for c in LIB_CLASSES] + [builtin('Gauge', 'python_gc_collections_total'),
+                                                          described(fam('python_info', 'gauge')),
+                                                          derived(undescribed(fam('process_open_fds', 'gauge')))])
+    c = gen_custom_collector(rng)
+    if rng.random() < 0.4:       # written as the documentation recommends: a subclass of registry.Collector
+        c = derived(c)
+    return c
+
+
+def gen_custom_collector(rng):
     fams = [gen_family(rng) for _ in range(rng.choice([1, 1, 1, 2, 2, 3]))]
     if rng.random() < 0.1:
         fams = []
@@ -1120,6 +1262,16 @@ def cases(ctx):
     for depth in (1, 2, 3):
         for ops in itertools.product(op_alphabet(len(colls)), repeat=depth):
             yield {'auto': autos[0], 'init_ti': None, 'colls': colls, 'ops': list(ops)}
+    # the library's own collectors: every history up to depth 2, and a blocks b / is released / b registers for all a, b
+    name, colls, autos = LIB_SET
+    for depth in ((1, 2, 3) if ctx.thorough else (1, 2)):
+        for ops in itertools.product(op_alphabet(len(colls)), repeat=depth):
+            yield {'auto': autos[0], 'init_ti': None, 'colls': colls, 'ops': list(ops)}
+    for a in range(len(colls)):
+        for b in range(len(colls)):
+            if a != b:
+                yield {'auto': autos[0], 'init_ti': None, 'colls': colls,
+                       'ops': [['reg', a], ['reg', b], ['unreg', a], ['reg', b], ['reg', a], ['unreg', b], ['reg', a]]}
     for _sh, colls, auto in shape_sets():
         for depth in ((1, 2, 3) if ctx.thorough else (1, 2)):
             for ops in itertools.product(op_alphabet(len(colls)), repeat=depth):
@@ -1161,14 +1313,16 @@ def random_cases(ctx, count):
     for _ in range(count):
         n = rng.randrange(1, 7)
         if rng.random() < 0.3:
-            colls = list(rng.choice(FIXED_SETS + DYNAMIC_SETS + CREATED_SETS + [SHAPE_SET])[1])
+            colls = list(rng.choice(FIXED_SETS + DYNAMIC_SETS + CREATED_SETS + [SHAPE_SET, LIB_SET])[1])
             rng.shuffle(colls)
             colls = colls[:n]
+            if rng.random() < 0.3:
+                colls = [derived(c) if c['k'] == 'custom' else c for c in colls]
             if rng.random() < 0.4:
                 colls = [shape(c, rng.choice(SHAPES), rng.choice(SHAPES)) if c['k'] == 'custom' and 'shape' not in c else c
                          for c in colls]
         else:
-            colls = [gen_collector(rng) for _ in range(n)]
+            colls = [gen_collector(rng, libs=True) for _ in range(n)]
         case = {'auto': rng.random() < 0.5, 'init_ti': rng.choice([None, None, None, TI_ON]), 'colls': colls,
                 'ops': gen_history(rng, len(colls), rng.choice([3, 5, 8, 12, 20, 40]), colls),
                 'envvar': rng.random() < 0.1}
